@@ -340,6 +340,13 @@ func touchesTables(fn *ssa.Function, r *inmemRoles) bool {
 // freshVersionStore checks that record value v (about to be stored/encoded at instruction at) got its Version
 // from the ID generator by a store that dominates at, with no other write to the field or the record in between.
 func (c *Ctx) freshVersion(rule string, fn *ssa.Function, at ssa.Instruction, v ssa.Value, verField *types.Var, newID *ssa.Function, what string) {
+	// a copy of the local record taken by the record type's own Copy method carries the version of the local
+	// record at the moment of the call: look at the receiver there
+	if call, ok := v.(*ssa.Call); ok {
+		if recv := copyReceiver(call); recv != nil {
+			v, at = recv, call
+		}
+	}
 	// v is a load of (or the address of) a local record
 	var cell *ssa.Alloc
 	switch x := v.(type) {
@@ -785,6 +792,14 @@ func durationFromExpiry(v ssa.Value, exp *types.Var, depth int) bool {
 		return durationFromExpiry(x.X, exp, depth+1)
 	case *ssa.Extract:
 		return durationFromExpiry(x.Tuple, exp, depth+1)
+	case *ssa.Phi:
+		// a clamped / adjusted duration: every alternative derives from the expiry
+		for _, e := range x.Edges {
+			if !durationFromExpiry(e, exp, depth+1) {
+				return false
+			}
+		}
+		return len(x.Edges) > 0
 	}
 	return false
 }
@@ -1119,4 +1134,263 @@ func (c *Ctx) everyBatchRecordWritten(r *inmemRoles, rule string) {
 	if n == 0 {
 		c.Decide(rule, fn, "PutMany walks the batch", nil, false, "PutMany does not iterate over the records it was given")
 	}
+}
+
+// inmemNoSharing is the ownership rule of the in-memory backend (C02.R8 / C03.R12 / C06.R7): the record table never
+// holds memory the caller can still write, and no reader gets memory the table still holds. kvs.Record carries a
+// []byte and a *time.Time; storing the caller's struct (or returning the stored one) shares both, so a later write to
+// the caller's buffer or time variable changes the stored value and the stored expiry without any storage operation
+// and without a version change. Structurally: (a) every value stored into the record table is the result of
+// Record.Copy() (directly or through a repository helper all of whose returns are), (b) every Record a Storage method
+// returns, and every *Record it puts into a result slice, does not originate in a table lookup unless it went through
+// Record.Copy().
+func (c *Ctx) inmemNoSharing(r *inmemRoles, rule string) {
+	copyFn := c.P.MethodOf(r.recordT, "Copy")
+	if copyFn == nil {
+		c.Fatalf("role kvs.Record.Copy not found")
+	}
+	var isCopied func(v ssa.Value, depth int) bool
+	isCopied = func(v ssa.Value, depth int) bool {
+		os := ir.Origins(v)
+		if len(os) == 0 {
+			return false
+		}
+		for _, o := range os {
+			call, ok := o.(*ssa.Call)
+			if !ok {
+				return false
+			}
+			cal := ir.StaticCallee(call)
+			if cal == nil {
+				return false
+			}
+			if cal == copyFn || cal.Origin() == copyFn {
+				continue
+			}
+			// a repository helper whose every result is a copy
+			if depth < 2 && len(cal.Blocks) > 0 && cal.Pkg != nil && strings.HasPrefix(cal.Pkg.Pkg.Path(), ir.Module) {
+				all := true
+				rets := ir.Returns(cal)
+				for _, ret := range rets {
+					if len(ret.Results) == 0 || !isCopied(ret.Results[0], depth+1) {
+						all = false
+					}
+				}
+				if all && len(rets) > 0 {
+					continue
+				}
+			}
+			return false
+		}
+		return true
+	}
+	// fromTable: v can be a record read from the table (lookup, comma-ok lookup, range over the table, or a live-lookup helper)
+	fromTable := func(v ssa.Value) bool {
+		for _, o := range ir.Origins(v) {
+			switch x := o.(type) {
+			case *ssa.Lookup:
+				if _, ok := loadOfField(x.X, r.recs); ok {
+					return true
+				}
+			case *ssa.Extract:
+				switch t := x.Tuple.(type) {
+				case *ssa.Lookup:
+					if _, ok := loadOfField(t.X, r.recs); ok {
+						return true
+					}
+				case *ssa.Call:
+					if cal := ir.StaticCallee(t); cal != nil && r.liveHelpers[cal] {
+						return true
+					}
+				case *ssa.Next:
+					if rg, ok := t.Iter.(*ssa.Range); ok {
+						if _, isRecs := loadOfField(rg.X, r.recs); isRecs && x.Index == 2 {
+							return true
+						}
+					}
+				}
+			}
+		}
+		return false
+	}
+	directFromTable := fromTable
+	fromTable = func(v ssa.Value) bool {
+		if directFromTable(v) {
+			return true
+		}
+		for _, o := range ir.Origins(v) {
+			if call, ok := o.(*ssa.Call); ok {
+				if recv := copyReceiver(call); recv != nil && directFromTable(recv) {
+					return true
+				}
+			}
+		}
+		return false
+	}
+	nStore, nRet := 0, 0
+	for _, fn := range r.svcFns {
+		ir.Instrs(fn, func(in ssa.Instruction) {
+			switch x := in.(type) {
+			case *ssa.MapUpdate:
+				if _, ok := loadOfField(x.Map, r.recs); !ok {
+					return
+				}
+				nStore++
+				c.Decide(rule, fn, "the table stores its own copy of the record", x, isCopied(x.Value, 0),
+					"the record stored into the table is not the result of Record.Copy(): the table shares the caller's Value buffer and ExpiresAt variable, a later write to them changes the stored value / expiry without any storage operation and without a new version")
+			case *ssa.Store:
+				// *Record put into a result slice
+				ia, ok := x.Addr.(*ssa.IndexAddr)
+				if !ok {
+					return
+				}
+				pt, ok := x.Val.Type().Underlying().(*types.Pointer)
+				if !ok || namedOf(pt.Elem()) != r.recordT {
+					return
+				}
+				_ = ia
+				al, ok := x.Val.(*ssa.Alloc)
+				if !ok {
+					return
+				}
+				nRet++
+				bad := false
+				for _, st := range ir.StoresTo(al) {
+					if fromTable(st.Val) && !isCopied(st.Val, 0) {
+						bad = true
+					}
+				}
+				c.Decide(rule, fn, "records handed out in a result slice are copies", x, !bad,
+					"the *Record put into the result points to the struct read from the table: its Value buffer and ExpiresAt are the stored ones, a caller that modifies the result modifies the stored record")
+			}
+		})
+	}
+	for _, name := range storageMethodNames() {
+		fn := r.storage[name]
+		rs := fn.Signature.Results()
+		if rs.Len() == 0 || namedOf(rs.At(0).Type()) != r.recordT {
+			continue
+		}
+		for _, ret := range ir.Returns(fn) {
+			if len(ret.Results) == 0 {
+				continue
+			}
+			for _, v := range []ssa.Value{ret.Results[0], ir.ResultValue(ret, 0)} {
+				if v == nil || !fromTable(v) {
+					continue
+				}
+				nRet++
+				c.Decide(rule, fn, "a record read from the table is returned as a copy", ret, isCopied(v, 0),
+					"the method returns the struct read from the table: its Value buffer and ExpiresAt pointer are the stored ones, a caller that modifies the result modifies the stored record (and its expiry) without a write")
+				break
+			}
+		}
+	}
+	if nStore < 4 {
+		c.R.Errorf("%s: only %d stores into the record table found (Create, Put, PutMany, CasByVersion expected)", rule, nStore)
+	}
+	if nRet < 2 {
+		c.R.Errorf("%s: only %d hand-out sites of stored records found (Get, GetMany expected)", rule, nRet)
+	}
+}
+
+// copyReceiver: call is x.Copy() of a struct type T (value receiver, no arguments, result T): returns the receiver value.
+func copyReceiver(call *ssa.Call) ssa.Value {
+	cal := ir.StaticCallee(call)
+	if cal == nil || cal.Name() != "Copy" || cal.Signature.Recv() == nil || cal.Signature.Params().Len() != 0 || cal.Signature.Results().Len() != 1 {
+		return nil
+	}
+	if namedOf(cal.Signature.Recv().Type()) == nil || namedOf(cal.Signature.Recv().Type()) != namedOf(cal.Signature.Results().At(0).Type()) {
+		return nil
+	}
+	if len(call.Call.Args) != 1 {
+		return nil
+	}
+	return call.Call.Args[0]
+}
+
+// inmemRegistrationBalance (C07.W9 / C04.W7): a waiter that goes around its loop registers again only after its
+// previous registration is gone - withdrawn by itself (count decremented under the identity test) or consumed by a
+// notification (it was woken through the entry's channel, the notifier removed the entry). A path from one
+// registration to the next with neither inflates the count of the entry: when every waiter has cancelled the count
+// never reaches zero and the entry is left behind ("no bookkeeping is left behind when all waiters are gone").
+func (c *Ctx) inmemRegistrationBalance(r *inmemRoles, rule string) {
+	fn := r.storage["WaitForVersionChange"]
+	var incs []ssa.Instruction
+	isDec := func(x ssa.Instruction) bool { _, ok := isFieldDelta(x, r.wCount, -1); return ok }
+	ir.Instrs(fn, func(in ssa.Instruction) {
+		if _, ok := isFieldDelta(in, r.wCount, 1); ok {
+			incs = append(incs, in)
+		}
+	})
+	// the select cases that receive from the entry's channel: edges taken under "case index == k"
+	doneIdx := map[ssa.Value]map[int64]bool{} // select tuple -> indices of the done cases
+	ir.Instrs(fn, func(in ssa.Instruction) {
+		if sel, ok := in.(*ssa.Select); ok {
+			for i, st := range sel.States {
+				if st.Dir == types.RecvOnly {
+					if _, isDone := loadOfField(st.Chan, r.wDone); isDone {
+						if doneIdx[sel] == nil {
+							doneIdx[sel] = map[int64]bool{}
+						}
+						doneIdx[sel][int64(i)] = true
+					}
+				}
+			}
+		}
+	})
+	notifiedEdge := func(from, to *ssa.BasicBlock) bool {
+		ef := ir.EdgeFact(from, to)
+		if ef == nil {
+			return false
+		}
+		f := ef.StripNot()
+		cm, ok := f.Cmp()
+		if !ok || cm.Op != token.EQL {
+			return false
+		}
+		ex, ok := cm.X.(*ssa.Extract)
+		k, isC := ir.ConstInt(cm.Y)
+		if !ok || !isC || ex.Index != 0 {
+			return false
+		}
+		return doneIdx[ex.Tuple][k]
+	}
+	// the entry the waiter registered on is no longer the registered one (removed or replaced by a notifier): the
+	// registration went away with it - edges "lookup of the waiters table failed" / "the channels differ"
+	goneEdge := func(from, to *ssa.BasicBlock) bool {
+		ef := ir.EdgeFact(from, to)
+		if ef == nil {
+			return false
+		}
+		f := ef.StripNot()
+		if ex, ok := f.Cond.(*ssa.Extract); ok && ex.Index == 1 && !f.True {
+			if lk, isLk := ex.Tuple.(*ssa.Lookup); isLk {
+				if _, isW := loadOfField(lk.X, r.waiters); isW {
+					return true
+				}
+			}
+		}
+		if cm, ok := f.Cmp(); ok && cm.Op == token.NEQ {
+			_, dx := loadOfField(cm.X, r.wDone)
+			_, dy := loadOfField(cm.Y, r.wDone)
+			if dx && dy {
+				return true
+			}
+			if namedOf(cm.X.Type()) == r.waiterT && namedOf(cm.Y.Type()) == r.waiterT {
+				return true
+			}
+		}
+		return false
+	}
+	for _, inc := range incs {
+		q := ir.Query{Fn: fn, From: inc,
+			Block:     isDec,
+			BlockEdge: func(a, b *ssa.BasicBlock) bool { return notifiedEdge(a, b) || goneEdge(a, b) },
+			Target:    func(x ssa.Instruction) bool { return containsInstr(incs, x) },
+		}
+		c.NoPath(rule, "a waiter registers again only after its registration was withdrawn or notified", inc, q,
+			"the waiter can go around and register once more while its previous registration still counts (neither decremented nor consumed by a notification): the entry's count is inflated, it never drops to zero when the waiters cancel, and the entry is left behind")
+	}
+	c.R.Floor(rule, 1)
 }
